@@ -97,6 +97,8 @@ def run_families(run, fams, model_args=()):
             n = len([l for l in open(cpath) if l.strip()])
             rc, path, sc, tr = harness(["-mode", "script", "-file", cpath])
         else:
+            if run.tier == "quick":
+                n = run.scaled(n)      # anchor drift (a mirrored function changed): escalated budget, DESIGN 3.3
             rc, path, sc, tr = harness(["-mode", "batch", "-family", fam, "-n", n, "-seed", seed])
         rcm, out = _model(path, model_args)
         os.unlink(path)
